@@ -104,7 +104,7 @@ func run(c Case) (v vkit.Verdict) {
 func TestProp(t *testing.T) {
 	vkit.Main(t, vkit.Spec[Case]{
 		ID: "C11",
-		Rule: "rapid: histories of 1-400 operations (thorough tier: 5% of 800-2500 operations with fan-out 8/25/50 on a 60-unit grid) over trees with max fan-out 4-8 (75%) or 25/50 and 2<=min<=max/2; objects are *Bounds pointers, Point values or comparable " +
+		Rule: "rapid: histories of 1-400 operations (insert-heavy, delete-heavy, mixed and hot-spot phases - the last piles coincident and concentric boxes on one location) (thorough tier: 5% of 800-2500 operations with fan-out 8/25/50 on a 60-unit grid) over trees with max fan-out 4-8 (75%) or 25/50 and 2<=min<=max/2; objects are *Bounds pointers, Point values or comparable " +
 			"struct values on a 4/8/20 integer grid (coincident, touching, degenerate boxes frequent); operations: insert, insert a duplicate of a stored object, delete a stored " +
 			"object, delete an absent look-alike, delete everything in a strided order, search with a drawn box; insert-heavy and delete-heavy phases alternate. After every mutating " +
 			"step: Size, covering search as a multiset, and - through the verif snapshot hook - leaves at one depth = Depth(), every entry box the exact envelope of its subtree, " +
